@@ -1087,17 +1087,27 @@ fn pad_integral(
 ) -> fmt::Result {
     let prefix_width = f.alternate() as usize * prefix.len() + f.sign_plus() as usize;
     let min_digits = f.width().unwrap_or(0).saturating_sub(prefix_width);
-    let mut pad = match usize::try_from(digits) {
+    let pad = match usize::try_from(digits) {
         // the number 0 has no significant digit but is written as "0"
         Ok(digits) => min_digits.saturating_sub(digits.max(1)),
         Err(_) => 0,
     };
 
-    if pad != 0 && f.sign_aware_zero_pad() {
-        for _ in 0..pad {
-            f.write_char('0')?;
+    // Sign-aware zero padding goes between the prefix and the digits; padding
+    // with the fill character goes around the sign and the prefix
+    let zero_pad = f.sign_aware_zero_pad();
+    let fill_char = f.fill();
+    let mut pad_back = 0;
+    if pad != 0 && !zero_pad {
+        let pad_front = match f.align() {
+            Some(fmt::Alignment::Left) => 0,
+            Some(fmt::Alignment::Center) => pad / 2,
+            _ => pad,
+        };
+        pad_back = pad - pad_front;
+        for _ in 0..pad_front {
+            f.write_char(fill_char)?;
         }
-        pad = 0;
     }
 
     if f.sign_plus() {
@@ -1106,23 +1116,15 @@ fn pad_integral(
     if f.alternate() {
         f.write_str(prefix)?;
     }
-
-    let fill_char = f.fill();
-    if pad != 0 {
-        let pad_front = match f.align() {
-            Some(fmt::Alignment::Left) => 0,
-            Some(fmt::Alignment::Center) => pad / 2,
-            _ => pad,
-        };
-        pad -= pad_front;
-        for _ in 0..pad_front {
-            f.write_char(fill_char)?;
+    if zero_pad {
+        for _ in 0..pad {
+            f.write_char('0')?;
         }
     }
 
     write_digits(f)?;
 
-    for _ in 0..pad {
+    for _ in 0..pad_back {
         f.write_char(fill_char)?;
     }
 
